@@ -76,7 +76,9 @@ def correspondence(ctx):
         except Exception as ex:
             got = f'raised {type(ex).__name__}: {str(ex)[:150]}'
         if m is None:
-            stats['singular'] += 1      # singular target-unknown Jacobian: the implementation may raise or return garbage; not compared
+            stats['singular'] += 1      # singular target-unknown Jacobian: the implementation may raise or return garbage; not compared -- but its H_U must be singular too
+            if not C.numerically_singular(lambda: model.jacobian(ss, c['unknowns'], c['targets'], T=1).pack(1)):
+                dis.append(dict(what='the executable model finds the target-unknown Jacobian exactly singular where the H_U of the implementation is well conditioned', case=c))
             continue
         stats['solved'] += 1
         ok = m != 'ERR' and not isinstance(got, str) and all(abs(g - float(e)) <= 1e-9 * max(1.0, abs(float(e))) for gc, ec in zip(got, m) for g, e in zip(gc, ec))
@@ -172,6 +174,8 @@ def correspondence_T(ctx, n):
         T = sp['T']
         if vm is None or vm == 'None':
             stats['singular'] += 1
+            if not logs and not C.numerically_singular(lambda: model.jacobian(ss, sp['U'], sp['Tg'], T=T).pack(T)):
+                dis.append(dict(what='the executable model finds the target-unknown Jacobian exactly singular where the H_U of the implementation is well conditioned', case=c))
             continue
         body = vm[1] if isinstance(vm, tuple) and len(vm) == 2 and vm[0] == 'Some' else vm
         HU = model.jacobian(ss, sp['U'], sp['Tg'], T=T).pack(T)
